@@ -103,7 +103,7 @@ fn check_prep(p: &Prep, out: &Outcome<CObs>) -> Option<(String, String)> {
             if i < shift {
                 continue;
             }
-            if pop.get(i - shift) != Some(&(p.pop[i].0, p.pop[i].1)) || o.ke.get(i - shift) != Some(&p.ke[i]) {
+            if pop.get(i - shift) != Some(&(p.pop[i].0, p.pop[i].1)) || o.ke.get(i - shift) != Some(&p.ke[i]) || o.mol_best.get(i - shift).map(|b| b.0) != Some(p.pop[i].0) {
                 return Some((format!("{} untouched-molecule-changed", head), ctx(format!("individual/molecule {} changed: population {:?}, kinetic energies {:?}", i, pop, o.ke))));
             }
         }
@@ -127,17 +127,17 @@ fn check_prep(p: &Prep, out: &Outcome<CObs>) -> Option<(String, String)> {
 
 pub fn preps(thorough: bool) -> Vec<Prep> {
     let mut v = vec![];
-    let sizes: Vec<usize> = if thorough { vec![2, 3] } else { vec![2] };
+    let sizes: Vec<usize> = vec![2, 3];
     let kes: Vec<Vec<f64>> = sequences(KE.len(), 2).into_iter().map(|s| s.iter().map(|i| KE[*i]).collect()).collect();
     for &n in &sizes {
         // population objectives: a few patterns with distinct tags
-        let objs: Vec<Vec<f64>> = if thorough { sequences(OBJ.len(), n).into_iter().map(|s| s.iter().map(|i| OBJ[*i]).collect()).collect() } else { vec![vec![1.0, 3.0], vec![0.5, 0.5], vec![3.0, 0.0]] };
+        let objs: Vec<Vec<f64>> = if thorough { sequences(OBJ.len(), n).into_iter().map(|s| s.iter().map(|i| OBJ[*i]).collect()).collect() } else if n == 2 { vec![vec![1.0, 3.0], vec![0.5, 0.5], vec![3.0, 0.0]] } else { vec![vec![1.0, 3.0, 0.5]] };
         for o in &objs {
             let pop: Vec<TInd> = o.iter().enumerate().map(|(i, x)| (i as u32, *x)).collect();
             for ke2 in &kes {
                 let mut ke = ke2.clone();
                 while ke.len() < n {
-                    ke.push(0.5);
+                    ke.push(1.25);
                 }
                 for &buffer in &BUF {
                     for &pv in &OBJ {
@@ -158,6 +158,17 @@ pub fn preps(thorough: bool) -> Vec<Prep> {
                         }
                     }
                 }
+            }
+        }
+    }
+    // exact duplicate individuals are distinct molecules (two reactants that compare equal)
+    for &buffer in &BUF {
+        for &pv in &OBJ {
+            for ke in [vec![0.5, 2.0], vec![2.0, 0.0, 0.5]] {
+                let n = ke.len();
+                let pop: Vec<TInd> = (0..n).map(|i| if i < 2 { (7, 1.0) } else { (8, 3.0) }).collect();
+                v.push(Prep { reaction: 3, pop: pop.clone(), ke: ke.clone(), buffer, reactants: vec![0, 1], products: vec![(100, pv)], lr: 0.0 });
+                v.push(Prep { reaction: 2, pop: pop.clone(), ke: ke.clone(), buffer, reactants: vec![0, 1], products: vec![(100, pv), (101, 0.5)], lr: 0.0 });
             }
         }
     }
